@@ -91,12 +91,19 @@ type propCfg struct {
 	Stub       []string
 }
 
+var outRoot string
+
 func main() {
 	verif := flag.String("verif", "/verif", "verif directory")
 	bin := flag.String("bin", "/verif/.build/sim.test", "worker test binary")
 	replay := flag.String("replay", "", "replay file")
 	workers := flag.Int("workers", 16, "parallel worker processes")
+	outDir := flag.String("out", "", "write evidence and replays here instead of the verif directory (sensitivity runs)")
 	flag.Parse()
+	outRoot = *verif
+	if *outDir != "" {
+		outRoot = *outDir
+	}
 	if flag.NArg() < 1 {
 		fmt.Fprintln(os.Stderr, "usage: driver [flags] <property> [quick|thorough]")
 		os.Exit(2)
@@ -297,7 +304,7 @@ func main() {
 	printedKnown := map[string]bool{}
 	reported := map[string]bool{}
 	nviol := 0
-	os.MkdirAll(filepath.Join(*verif, "replays", prop), 0o755)
+	os.MkdirAll(filepath.Join(outRoot, "replays", prop), 0o755)
 	for _, f := range agg.Failures {
 		key := f.Violation.Prop + "|" + f.Violation.Sig
 		isKnown := false
@@ -316,7 +323,7 @@ func main() {
 		reported[key] = true
 		nviol++
 		name := fmt.Sprintf("%s-seed%d-run%d-%s.json", prop, seed, f.RunIndex, sanitize(f.Violation.Rule))
-		path := filepath.Join(*verif, "replays", prop, name)
+		path := filepath.Join(outRoot, "replays", prop, name)
 		rf := map[string]interface{}{"property": f.Violation.Prop, "violation": f.Violation, "scenario": f.Scenario, "hash": f.Hash,
 			"trace": f.Trace, "note": fmt.Sprintf("shrunk from %d to %d operations; VERIF_SEED=%d run index %d; replay: bin/check %s --replay %s", f.Original, f.Shrunk, seed, f.RunIndex, prop, path)}
 		b, _ := json.MarshalIndent(rf, "", " ")
@@ -337,6 +344,9 @@ func main() {
 		}
 	}
 
+	if agg.Hazards > 0 {
+		fmt.Fprintf(os.Stderr, "WARNING: %d determinism hazards (goroutines the scheduler could not tell apart registered in one step, or engine calls by untracked goroutines); replays of such runs may differ\n", agg.Hazards)
+	}
 	writeEvidence(*verif, prop, tier, seed, cfg, agg, len(sched), len(nt), len(states), wall, nviol, known)
 	fmt.Printf("%s %s: %d runs, %d steps, %.0f simulated s, %d distinct histories (%d non-trivial), %.1fs wall, %d violation(s)\n",
 		prop, tier, agg.Runs, agg.Steps, float64(agg.SimMs)/1000, len(sched), len(nt), wall, nviol)
@@ -462,13 +472,19 @@ func writeEvidence(verif, prop, tier string, seed uint64, cfg propCfg, a *summar
 		"known_findings":       kf,
 		"known_finding_hits":   a.KnownHits,
 	}
+	if b, err := os.ReadFile(filepath.Join(verif, "selftest", "determinism-"+prop+".json")); err == nil {
+		var d interface{}
+		if json.Unmarshal(b, &d) == nil {
+			cov["determinism_selftest_last"] = d
+		}
+	}
 	ev := map[string]interface{}{
 		"property_id": prop, "tier": tier, "seed": seed, "level": cfg.Level, "coverage": cov,
 		"assumptions": cfg.Assume, "wall_s": wall, "violations": nviol,
 	}
 	b, _ := json.MarshalIndent(ev, "", " ")
-	os.MkdirAll(filepath.Join(verif, "evidence"), 0o755)
-	if err := os.WriteFile(filepath.Join(verif, "evidence", prop+".json"), b, 0o644); err != nil {
+	os.MkdirAll(filepath.Join(outRoot, "evidence"), 0o755)
+	if err := os.WriteFile(filepath.Join(outRoot, "evidence", prop+".json"), b, 0o644); err != nil {
 		fmt.Fprintln(os.Stderr, err)
 		os.Exit(2)
 	}
